@@ -194,7 +194,8 @@ class RawStructDef(TypeDef, ParsableDef):
 
         # Ensure that functions don't override struct fields
         if overridden := used_field_names.intersection(used_func_names.keys()):
-            x = overridden.pop()
+            # Report the first one alphabetically (set order depends on string hashing)
+            x = min(overridden)
             raise GuppyError(DuplicateFieldError(used_func_names[x], self.name, x))
 
         return ParsedStructDef(self.id, self.name, cls_def, params, fields)
